@@ -7,7 +7,15 @@
 #include <string>
 #include <vector>
 #include <random>
+#include <unistd.h>
 typedef unsigned char u8_t;
+// children of the drivers leave with _exit(); under lib/coverage.py they flush their gcov counters first
+#ifdef WV_COVERAGE
+extern "C" void __gcov_dump(void);
+#define WV_EXIT(c) do { __gcov_dump(); _exit(c); } while (0)
+#else
+#define WV_EXIT(c) _exit(c)
+#endif
 
 class Ev
 {
